@@ -124,7 +124,10 @@ def value_like(rng, pd, cur, n):
 
 SKIP_PARAMS = {"serialNum", "flags", "type", "numberDensities", "mult", "volume", "modArea", "height", "ztop", "zbottom", "z", "axMesh", "assemNum",
                "cycle", "timeNode", "orientation", "pinLocation", "topIndex", "percentBuByPin", "nPins", "xsType", "envGroup", "envGroupNum", "xsTypeNum",
-               "area", "mergeWith", "customIsotopicsName", "temperatureInC", "axialExpTargetComponent", "maxAssemNum", "symmetry", "geomType"}
+               "area", "mergeWith", "customIsotopicsName", "temperatureInC", "axialExpTargetComponent", "maxAssemNum", "symmetry", "geomType",
+               # mirrors of the case settings / blueprints, which the property holds fixed ("loaded with the same settings and blueprints"):
+               # Core.processLoading and Database._assignBlueprintsParams re-apply them on load by design
+               "jumpRing", "beta", "betaComponents", "betaDecayConstants", "pressureLossCoeffs", "crCurrentElevation", "crInsertedElevation", "crWithdrawnElevation", "nozzleType", "hotChannelFactors"}
 
 
 def history(rec, rng, r, w):
@@ -252,7 +255,11 @@ def roundtrip(rec, rng, r, cs, bp, w, kind):
     r.p.cycle, r.p.timeNode = rng.randint(0, 3), rng.randint(0, 5)
     cyc, node = r.p.cycle, r.p.timeNode
     try:
-        r.sort()  # documented normalisation: the database stores and restores the sorted child order
+        # documented normalisation: the database stores and restores the *sorted* child order.  Composite.sort() orders a
+        # DerivedShape by its cached area, which may be stale right after a temperature edit, so bring the caches up to date
+        # (one full observation) before sorting; otherwise the original would be left in an order sort() itself would not keep.
+        obs.obs(r)
+        r.sort()
         o0 = obs.obs(r)
         db = Database("c04-%d.h5" % rng.randrange(10 ** 9), "w")
         db.open()
